@@ -17,6 +17,20 @@ theorem normalize_lower (s : Str) : normalize (s.map lowerC) = normalize s := No
 theorem normalize_eq_iff_lower_eq (a b : Str) :
     normalize a = normalize b ↔ a.map lowerC = b.map lowerC := Norm.normalize_eq_iff_lower_eq a b
 
+/-- **Stored key, closed form, for every name** (letters, digits, `_ . ! ~ ' …` alike): `_normalize_header`
+    upper-cases exactly the first character of each `-`-separated word and lower-cases all others, so e.g.
+    `P3P`, `p3p` ↦ `P3p` and `X_Forwarded_For` ↦ `X_forwarded_for` — a letter after a non-letter other than `-`
+    is never kept in upper case. -/
+theorem normalize_eq_headerCase (s : Str) : normalize s = Spec.headerCase true s :=
+  (Norm.normalize_headerCase_aux s).1
+
+/-- all spellings of a name — in particular its upper-, lower- and header-cased forms — address one key -/
+theorem normalize_case_variants (s : Str) :
+    normalize (s.map upperC) = normalize s ∧ normalize (Spec.headerCase true s) = normalize s := by
+  refine ⟨?_, ?_⟩
+  · rw [Norm.normalize_eq_iff_lower_eq]; simp [List.map_map, Function.comp_def, lowerC_upperC]
+  · rw [← normalize_eq_headerCase, Norm.normalize_idem]
+
 /-- **Cache soundness, one step**: if every cached combined value equals the comma-join of the current value
     list (and the state is related to some multimap), the same holds after any operation. -/
 theorem cache_sound_step (h : Headers) (m : Spec.M) (r : R h m) (op : Op) : CacheSound (step h op).1 :=
